@@ -21,10 +21,14 @@ def main():
     try:
         try:
             import re as _re
-            extra = ' '.join(t for t in _re.findall(r'-[DO]\S+', json.load(open(os.path.join(d, 'meta.json'))).get('build', '')) if t != '-DCELLO_NSTRACE')
+            extra = ' '.join(t for t in _re.findall(r'-[DO]\S+', json.load(open(os.path.join(d, 'meta.json'))).get('build', '').split('#')[0]) if t != '-DCELLO_NSTRACE')   # flags of the build command itself, not of a remark after '#'
         except Exception:
             extra = ''
         res['extra_build_flags_from_meta'] = extra
+        # a demonstration may write scratch files into the directory its author worked in (/tmp/mut*/A): recreate it for the run
+        made = []
+        for dd in set(re.findall(r'/tmp/mut\w*/[AB]', open(os.path.join(d, 'demo.c'), errors='replace').read())):
+            if not os.path.isdir(dd): os.makedirs(dd); made.append(dd)
         def demo(tag):
             exe = f'{wt}/demo_{tag}'
             rc, out = sh(f'gcc -std=gnu99 {extra} -I{wt}/include -DCELLO_NSTRACE {d}/demo.c {wt}/src/*.c -lpthread -lm -o {exe}')
@@ -48,6 +52,7 @@ def main():
         res['confirmed'] = bool(res['patch_applies'] and res['make_check']['rc'] == 0 and res['make_check']['failed'] == 0 and clean_ok and changed_fail)
     finally:
         sh(f'git -C /repo worktree remove --force {wt}')
+        for dd in locals().get('made', []): shutil.rmtree(os.path.dirname(dd), ignore_errors=True)
         shutil.rmtree(wt, ignore_errors=True)
     json.dump(res, open(os.path.join(d, 'verified.json'), 'w'), indent=1)
     print(sid, 'confirmed' if res.get('confirmed') else 'NOT CONFIRMED', json.dumps({k: v for k, v in res.items() if k in ('patch_applies', 'make_check')}))
